@@ -91,6 +91,9 @@ def _parse(r):
         pass
     if m:
         r.generated, r.distinct = int(m.group(1)), int(m.group(2))
+    m = re.search(r"The number of states generated: (\d+)", out)
+    if m and not r.generated:
+        r.generated = int(m.group(1))      # simulation mode: behaviours, no distinct-state count
     m = re.search(r"The depth of the complete state graph search is (\d+)", out)
     if m:
         r.depth = int(m.group(1))
